@@ -101,6 +101,13 @@ Definition exp_OutParamPort_Send : list stm :=
 Definition exp_OutParamPort_Close : list stm :=
   [SRange "pop.RemotePorts" [SCall "pip.CloseConnection"; SCall "pop.removeRemotePort"]].
 
+(* D20: the remote-port map of a parameter in-port is read and written under the port's lock *)
+Definition exp_InParamPort_AddRemotePort : list stm :=
+  [SLock "pip.closeLock"; SDefer (SUnlock "pip.closeLock"); SIf "pip.RemotePorts[pop.Name()] != nil" [SFail] []; SAssign "pip.RemotePorts[pop.Name()]"].
+
+Definition exp_InParamPort_connectedOutParamPorts : list stm :=
+  [SLock "pip.closeLock"; SDefer (SUnlock "pip.closeLock"); SRange "pip.RemotePorts" []; SReturn "pops"].
+
 Definition exp_InParamPort_FromStr : list stm :=
   [SCall "NewOutParamPort"; SCall "pip.Process"; SCall "pip.From"; SGo (SBlock [SDefer (SCall "pop.Close"); SRange "strings" [SCall "pop.Send"]])].
 
@@ -134,8 +141,10 @@ Definition exp_Workflow_reconnectDeadEndConnections : list stm :=
 Definition exp_upstreamProcsForProc : list stm :=
   [SCall "collectUpstreamProcs"; SReturn "procs"].
 
+(* after the repair of D20: the parameter in-ports are traversed through the locked accessor (a feeder goroutine of FromStr
+   may be deleting its entry from the map at that moment) *)
 Definition exp_collectUpstreamProcs : list stm :=
-  [SFunc "visit" [SIf "seen" [SReturn ""] []; SAssign "procs[upProc.Name()]"; SCall "collectUpstreamProcs"]; SRange "proc.InPorts()" [SRange "inp.RemotePorts" [SCall "visit"]]; SRange "proc.InParamPorts()" [SRange "pip.RemotePorts" [SCall "visit"]]].
+  [SFunc "visit" [SIf "seen" [SReturn ""] []; SAssign "procs[upProc.Name()]"; SCall "collectUpstreamProcs"]; SRange "proc.InPorts()" [SRange "inp.RemotePorts" [SCall "visit"]]; SRange "proc.InParamPorts()" [SRange "pip.connectedOutParamPorts()" [SCall "visit"]]].
 
 (* after the repair of D19: a streaming IP that reaches the sink has its FIFO drained by a goroutine of its own, which the
    sink does not wait for (the receive loop, the close protocol and what Run waits for are as before) *)
